@@ -3,7 +3,7 @@ from common import *  # noqa
 import dbtie
 import memtie
 
-PROFILE = {'scenario_also': ['ne_writes'], 'scenario_pref': ['redate_remove', 'underscore_keys', 'big_ints', 'hash_twins', 'hash_twins', 'noop_compose', 'epoch', 'sparse_write', 'sparse_write', 'same_count', 'nested_not', 'remove_first', 'ooo_then_remove', 'nested_not', 'hash_twins'], 'p_write': 0.55, 'writes': {'insert': 2, 'insert_multiple': 1, 'remove': 6, 'drop': 2, 'remove_all': 1, 'update': 1, 'reindex': 0.5, 'reopen': 0.5, 'handle': 1.5}}
+PROFILE = {'scenario_also': ['same_row_text', 'ne_writes'], 'scenario_pref': ['redate_remove', 'underscore_keys', 'big_ints', 'hash_twins', 'hash_twins', 'noop_compose', 'epoch', 'sparse_write', 'sparse_write', 'same_count', 'nested_not', 'remove_first', 'ooo_then_remove', 'nested_not', 'hash_twins'], 'p_write': 0.55, 'writes': {'insert': 2, 'insert_multiple': 1, 'remove': 6, 'drop': 2, 'remove_all': 1, 'update': 1, 'reindex': 0.5, 'reopen': 0.5, 'handle': 1.5}}
 
 
 def main(tier, seed):
